@@ -255,6 +255,44 @@ Proof.
   rewrite Hg at 1. simpl. rewrite Ht. split; reflexivity.
 Qed.
 
+(* ---- the roster value is independent of the slice it was built from --------- *)
+(* whatever the caller does to its slice afterwards, the value NewRoster returned is
+   the same value ... *)
+Theorem roster_value_unaffected (v : roster_val) edits s :
+  snd (fold_left edit_world edits (s, v)) = v.
+Proof.
+  revert s. induction edits as [|e r IH]; intros s; [reflexivity|]. simpl. apply IH.
+Qed.
+
+(* ... and its ID field is the id GetID() derives from its own member list *)
+Theorem roster_value_consistent (H256 U5 : bytes -> bytes) g v :
+  new_roster_val H256 U5 g = Some v ->
+  rv_list v = g /\ roster_get_id H256 U5 (rv_list v) = RId (rv_id v).
+Proof.
+  unfold new_roster_val, new_roster. destruct g as [|g0 gr]; [discriminate|].
+  destruct (g_key g0); [|discriminate].
+  destruct (resolve_roster (g0 :: gr)) as [r|] eqn:R; [|discriminate].
+  destruct (same_type _ _); [|discriminate]. intros E. inversion E; subst. simpl.
+  split; [reflexivity|]. unfold roster_get_id. rewrite R. reflexivity.
+Qed.
+
+Corollary roster_value_after_edits (H256 U5 : bytes -> bytes) g v edits :
+  new_roster_val H256 U5 g = Some v ->
+  let v' := snd (fold_left edit_world edits (g, v)) in
+  rv_list v' = g /\ rv_id v' = rv_id v /\ roster_get_id H256 U5 (rv_list v') = RId (rv_id v').
+Proof.
+  intros E v'. unfold v'. rewrite roster_value_unaffected.
+  destruct (roster_value_consistent H256 U5 g v E) as [E1 E2]. auto.
+Qed.
+
+Example roster_value_example :
+  exists g e, apply_edit g e <> g /\
+    forall H256 U5, exists v, new_roster_val H256 U5 g = Some v.
+Proof.
+  exists [ {| g_key := Some (k32 "A"); g_srv := [] |}; {| g_key := Some (k32 "B"); g_srv := [] |} ], (ESwap 0 1).
+  split; [discriminate|]. intros. eexists. reflexivity.
+Qed.
+
 (* ======================================================================== *)
 (* trees                                                                     *)
 
